@@ -6,7 +6,7 @@ import re
 
 from .rustlex import ExtractError, mask, match_close
 
-HEADER_RULES = {'R1'}
+HEADER_RULES = {'R1', 'RVP'}
 
 
 def _line_rel(text, off):
@@ -296,6 +296,12 @@ def rule_R11(text, args, log):
     return _replace_spans(text, spans, log)
 
 
+def rule_RVP(text, args, log):
+    """strip visibility (`pub`, `pub(crate)`, ...) from the extracted item: inside the single-module Verus file everything is
+    private to that module, which avoids Verus' public-contract-mentions-private-field restrictions; no semantics"""
+    return regex_rewrite(text, 'RVP', r'(?<![A-Za-z0-9_])pub(\([a-z: ]+\))?\s+', '', log)
+
+
 BUILTIN = {
     'R1': rule_R1,
     'R2': rule_R2,
@@ -305,4 +311,5 @@ BUILTIN = {
     'R10': rule_R10,
     'R11': rule_R11,
     'R16': rule_R16,
+    'RVP': rule_RVP,
 }
